@@ -89,7 +89,7 @@ theorem replaceInline_nip (text : Str) (e : Expand) : NIP b (replaceInline rec e
   have hm := macrosRender_nip rec env hs
   cases b <;> (unfold replaceInline; nip_go)
 
-theorem replaceGroupText_nip (g : Str) (sp : Bool) (e : Expand) : NIP b (replaceGroupText rec env g sp e) := by
+theorem replaceGroupText_nip (g : Str) (sp : Bool) (e : Expand) (ia : Bool) : NIP b (replaceGroupText rec env g sp e ia) := by
   have hr := replaceInline_nip rec env hs
   cases b <;> (unfold replaceGroupText; nip_go)
 
